@@ -22,6 +22,10 @@ def flag_untils(rng, n):
         body = [['await', ['delay', rng.choice([3, 6, 9])]], ['log', 1]]
         if rng.random() < 0.3:
             body = [['do', 1, 1, ['now'], rng.random() < 0.3, [['await', ['delay', 5]], ['log', 2]]]] + body
+        if rng.random() < 0.3:
+            # two until-blocks of ONE activity on the same notification object, the inner one finishing first: leaving it
+            # must not take the outer block's subscription along
+            body = [['until', 2, cond, [['await', ['instant']], ['log', 4]]], ['log', 5]] + body
         owner = pre + ([['await', ['delay', d_enter]]] if d_enter else []) + [['until', 1, cond, body], ['log', 3]]
         toggler = []
         for _ in range(rng.choice([1, 2, 3, 4])):
